@@ -247,7 +247,7 @@ def grant_and_lock(ctx):
             ce = x.drivers("arbiters[%d].ce" % b)
             if not ob4.need(len(ce) == 1, "arbiters[%d].ce driver not found" % b):
                 continue
-            c = x.value_conj_keys(ce[0].value)
+            c = x.value_conj_keys(ce[0].value, False)
             ob4.instance("banks=%d: arbiter %d ce" % (nb, b), sorted(c))
             need = {"~controller.bank%d.valid" % b, "~controller.bank%d.lock" % b}
             if not need <= c:
